@@ -66,6 +66,132 @@ theorem bad_payload_is_panic (fuel : Nat) (h : Handler F) (payload : List (Val F
   unfold handleEvent
   simp [hf, hl, hb]
 
+/-! ### a handler run is the call of the equivalent procedure -/
+
+/-- the procedure equivalent to a handler: same parameter names, same body -/
+def asProc (h : Handler F) (fname : Str) : FuncDef F :=
+  { name := fname, params := h.params.map (·.1), variadic := Option.none, body := h.body }
+
+/-- what evalFunccall does for a user-defined function once its arguments are values (the last
+match of `evalCall`, verbatim) -/
+def callTail (fuel : Nat) (fd : FuncDef F) (vs : List (Val F)) (st : St F) : Res F (Val F) :=
+  match execBlockNode ops ext prog fuel fd.body (calleeState fd vs st) with
+  | .err o st4 => .err o { st4 with locals := st.locals }
+  | .ok (.ret (some v)) st4 => .ok v { st4 with locals := st.locals }
+  | .ok _ st4 => .ok .none { st4 with locals := st.locals }
+
+/-- `callTail` IS the user-function branch of the model's evalFunccall -/
+theorem evalCall_is_callTail (fuel : Nat) (name : Str) (args : List (Expr F)) (st st' : St F) (vs : List (Val F))
+    (fd : FuncDef F) (ha : evalList ops ext prog fuel args st = .ok vs st')
+    (hb : callBuiltin ops ext name vs st' = Option.none) (hf : lookupFunc prog.funcs name = some fd)
+    (hl : ¬ vs.length < fd.params.length) :
+    evalCall ops ext prog (fuel + 1) name args st = callTail ops ext prog fuel fd vs st' := by
+  simp only [evalCall, ha, hb, hf, hl, if_false, callTail]
+  cases execBlockNode ops ext prog fuel fd.body (calleeState fd vs st') with
+  | err o s => rfl
+  | ok c s => cases c with
+    | ret v => cases v <;> rfl
+    | _ => rfl
+
+/-- the result of a procedure call read as the result of an event delivery -/
+def asRun : Res F (Val F) → RunResult × St F
+  | .ok _ s => (.ok, s)
+  | .err o s => (.err o, s)
+
+/-- binding a well-typed payload is positional parameter binding -/
+theorem bindPayload_is_bindParams : ∀ (ps : List (Str × Ty)) (vs : List (Val F)) (st st2 : St F),
+    bindPayload ps vs st = some st2 → st2 = bindParams (ps.map (·.1)) vs st := by
+  intro ps
+  induction ps with
+  | nil => intro vs st st2 h; cases vs <;> simp_all [bindPayload, bindParams]
+  | cons p ps ih =>
+    intro vs st st2 h
+    obtain ⟨n, t⟩ := p
+    cases vs with
+    | nil => simp [bindPayload] at h
+    | cons v vs =>
+      simp only [bindPayload] at h
+      split at h
+      · simpa [bindParams] using ih vs _ st2 h
+      · cases h
+
+/-- **handler = procedure**: delivering an event whose payload has the declared types runs the handler
+exactly as a call of the procedure with the same parameters and body would run with the payload as
+arguments: same outcome, same final state (globals, heap, effects, yields, test counters — every field) -/
+theorem handler_equals_procedure (fuel : Nat) (h : Handler F) (fname : Str) (payload : List (Val F)) (st st2 : St F)
+    (hf : prog.handlers.find? (fun x => x.name == h.name) = some h)
+    (hl : ¬ payload.length < h.params.length)
+    (hb : bindPayload h.params payload { st with locals := [[]] } = some st2) :
+    handleEvent ops ext prog fuel h.name payload st
+      = asRun (callTail ops ext prog fuel (asProc h fname) payload st) := by
+  have h2 := bindPayload_is_bindParams h.params payload _ st2 hb
+  have hcs : calleeState (asProc h fname) payload st = st2 := by
+    simp [calleeState, asProc, h2]
+  rw [globals_shared ops ext prog fuel h payload st st2 hf hl hb]
+  unfold callTail
+  rw [hcs]
+  have hbody : (asProc h fname).body = h.body := rfl
+  rw [hbody]
+  cases hq : execBlockNode ops ext prog fuel h.body st2 with
+  | err o s => rfl
+  | ok c s => cases c with
+    | ret v => cases v <;> rfl
+    | _ => rfl
+
+/-- delivery of a sequence of events, as the platform does it: in order, until one fails -/
+def deliver (fuel : Nat) : List (Str × List (Val F)) → St F → RunResult × St F
+  | [], st => (.ok, st)
+  | (name, payload) :: rest, st =>
+    match handleEvent ops ext prog fuel name payload st with
+    | (.ok, st') => deliver fuel rest st'
+    | r => r
+
+/-- the same sequence as calls of procedures: `procOf name` is the procedure standing for handler `name` -/
+def callAll (fuel : Nat) (procOf : Str → FuncDef F) : List (Str × List (Val F)) → St F → RunResult × St F
+  | [], st => (.ok, st)
+  | (name, payload) :: rest, st =>
+    match asRun (callTail ops ext prog fuel (procOf name) payload st) with
+    | (.ok, st') => callAll fuel procOf rest st'
+    | r => r
+
+/-- every event of the sequence names a handler and carries a payload of its declared types
+(checked in the state in which it is delivered: binding looks at the values only) -/
+def Deliverable (evs : List (Str × List (Val F))) : Prop :=
+  ∀ ev ∈ evs, ∃ h, prog.handlers.find? (fun x => x.name == ev.1) = some h ∧ h.name = ev.1 ∧
+    ¬ ev.2.length < h.params.length ∧ ∀ st : St F, (bindPayload h.params ev.2 st).isSome
+
+/-- **for every sequence of events** the cumulative result — outcome and whole final state — equals that
+of calling the equivalent procedures in that order -/
+theorem event_sequence_equals_procedure_calls (fuel : Nat) (procOf : Str → FuncDef F) (fname : Str → Str)
+    (hp : ∀ name h, prog.handlers.find? (fun x => x.name == name) = some h → procOf name = asProc h (fname name)) :
+    ∀ (evs : List (Str × List (Val F))) (st : St F), Deliverable prog evs →
+      deliver ops ext prog fuel evs st = callAll ops ext prog fuel procOf evs st := by
+  intro evs
+  induction evs with
+  | nil => intro st _; rfl
+  | cons ev rest ih =>
+    intro st hd
+    obtain ⟨name, payload⟩ := ev
+    obtain ⟨h, hf, hn, hl, hb⟩ := hd (name, payload) (by simp)
+    simp only at hf hn hl hb
+    have hb' := hb { st with locals := [[]] }
+    obtain ⟨st2, hst2⟩ := Option.isSome_iff_exists.mp hb'
+    have he := handler_equals_procedure ops ext prog fuel h (fname name) payload st st2 (by rw [hn]; exact hf) hl hst2
+    rw [hn] at he
+    have hrest : Deliverable prog rest := fun e he' => hd e (by simp [he'])
+    simp only [deliver, callAll, he, hp name h hf]
+    cases hq : asRun (callTail ops ext prog fuel (asProc h (fname name)) payload st) with
+    | mk r s => cases r with
+      | ok => exact ih s hrest
+      | _ => rfl
+
+/-- the hypotheses are satisfiable: a `key` handler and a `key` event with a string payload -/
+example : Deliverable (F := F) ⟨[], [⟨lit "key", [(lit "k", .str)], [.noop]⟩], []⟩ [(lit "key", [.str (lit "a")])] := by
+  intro ev hev
+  simp only [List.mem_singleton] at hev
+  subst hev
+  exact ⟨⟨lit "key", [(lit "k", .str)], [.noop]⟩, by simp [lit], rfl, by simp, fun st => by simp [bindPayload, payloadOk]⟩
+
 /-- **whole programs**: a handler run of any length gives the scope stack back exactly, and only adds to
 heap, yields and trace -/
 theorem handler_is_isolated (n : Nat) (name : Str) (payload : List (Val F)) (st : St F) :
